@@ -16,6 +16,7 @@ import Circomspect.Model.Includes
 import Circomspect.Model.Taint
 import Circomspect.Lemmas.PathValues
 import Circomspect.Lemmas.PathDegrees
+import Circomspect.Model.SsaBuild
 import Driver.Sexp
 import Driver.DesugarCmd
 
@@ -397,6 +398,7 @@ partial def exprReads (e : Sexp) : List Ssa.VVar :=
   | .list (.atom "exp" :: e :: _) => exprReads e
   | .list (.atom "m" :: _) => []
   | .list (.atom "v" :: _) => []
+  | .list (.list x :: rest) => (Sexp.list x :: rest).flatMap exprReads      -- a list of expressions (call / log arguments)
   | .list (_ :: rest) => rest.flatMap exprReads
   | _ => []
 
@@ -450,6 +452,117 @@ def ssacheckCmd (rest : String) : String :=
     let rs := r1 ++ r2 ++ r3 ++ dbg.take 6
     if rs.isEmpty then s!"ok vars={vars.length} stmts={(Ssa.allStmts g).length} phis={((Ssa.allStmts g).filter (·.isPhi)).length}" else "fail " ++ " ".intercalate rs
   | none => "bad-op"
+
+-- ---------------------------------------------------------------- C14: the construction model on real dumps
+
+def pkeyOf (v : Sexp) : Option String := (vvarOf v).map (·.1)
+
+/-- local-variable occurrences of an (unversioned) IR expression dump, in the order `exprReads` uses -/
+partial def exprReadsP (locals : List String) (e : Sexp) : List String :=
+  let loc (v : Sexp) : List String := match pkeyOf v with | some k => if locals.contains k then [k] else [] | none => []
+  match e with
+  | .list (.atom "var" :: _ :: v :: _) => loc v
+  | .list (.atom "acc" :: _ :: v :: .list acc :: _) => loc v ++ acc.flatMap (exprReadsP locals)
+  | .list (.atom "upd" :: _ :: v :: .list acc :: rhe :: _) => loc v ++ acc.flatMap (exprReadsP locals) ++ exprReadsP locals rhe
+  | .list (.atom "phi" :: _) => []
+  | .list (.atom "idx" :: e :: _) => exprReadsP locals e
+  | .list (.atom "exp" :: e :: _) => exprReadsP locals e
+  | .list (.atom "m" :: _) => []
+  | .list (.atom "v" :: _) => []
+  | .list (.list x :: rest) => (Sexp.list x :: rest).flatMap (exprReadsP locals)
+  | .list (_ :: rest) => rest.flatMap (exprReadsP locals)
+  | _ => []
+
+def pstmtOf (locals : List String) (st : Sexp) : SsaBuild.PStmt :=
+  match st with
+  | .list (.atom "st" :: .list (.atom "sub" :: _ :: v :: _ :: rhe :: _) :: _) =>
+    let tgt := match pkeyOf v with | some k => if locals.contains k then some k else none | none => none
+    (match rhe, tgt with
+     | .list (.atom "upd" :: _ :: uv :: .list acc :: inner :: _), some t =>
+       if pkeyOf uv == some t then
+         { target := tgt, reads := acc.flatMap (exprReadsP locals) ++ exprReadsP locals inner, upd := true }
+       else { target := tgt, reads := exprReadsP locals rhe, upd := false }
+     | _, _ => { target := tgt, reads := exprReadsP locals rhe, upd := false })
+  | .list (.atom "st" :: .list (.atom "decl" :: _ :: _ :: _ :: .list dims :: _) :: _) =>
+    { target := none, reads := dims.flatMap (exprReadsP locals), upd := false }
+  | .list (.atom "st" :: .list (_ :: _ :: rest) :: _) => { target := none, reads := rest.flatMap (exprReadsP locals), upd := false }
+  | _ => { target := none, reads := [], upd := false }
+
+def pcfgOf (c : Sexp) : SsaBuild.PCfg × List String :=
+  match c with
+  | .list (.atom "cfg" :: _ :: _ :: .list ps :: .list decls :: .list bs :: _) =>
+    let locals := decls.filterMap (fun d => match d with
+      | .list (.atom "d" :: v :: .list (.atom "local" :: _) :: _) => pkeyOf v
+      | _ => none)
+    ({ params := ps.filterMap pkeyOf,
+       blocks := bs.map (fun b => match b with
+         | .list [.atom "b", _, _, .list pr, .list su, .list sts] =>
+           { stmts := sts.map (pstmtOf locals), preds := pr.filterMap Sexp.nat?, succs := su.filterMap Sexp.nat? }
+         | _ => default) }, locals)
+  | _ => ({ params := [], blocks := [] }, [])
+
+def showSsaStmt (s : Ssa.Stmt) : String :=
+  let vv (x : Ssa.VVar) := s!"{x.1}@{x.2}"
+  let srt (l : List Ssa.VVar) := (l.map vv).toArray.qsort (· < ·) |>.toList
+  (if s.isPhi then "phi " else "") ++ (match s.target with | some t => vv t | none => "-") ++ " <- " ++ ",".intercalate (srt s.reads.eraseDups) ++
+    (if s.implicit.isEmpty then "" else " imp " ++ ",".intercalate (srt s.implicit))
+
+def showSsaBlock (b : Ssa.Block) : String :=
+  let phis := (b.stmts.filter (·.isPhi)).map showSsaStmt
+  let rest := (b.stmts.filter (fun s => !s.isPhi)).map showSsaStmt
+  "; ".intercalate ((phis.toArray.qsort (· < ·)).toList ++ rest)
+
+/-- `ssabuild (pair <pre-SSA cfg> <ssa cfg | ->)`: the construction model of C14 (`SsaBuild.insertPhis`, `SsaBuild.build`) run
+    on the real CFG before SSA conversion, with the version numbers of the real SSA dump: the built SSA form must be the
+    dump (phi statements and their arguments as sets, the other statements in order); also evaluates the hypotheses of
+    `C14_construction` (rooted graph, immediate dominators with smaller index, work list emptied) -/
+def ssabuildCmd (rest : String) : String :=
+  match Sexp.parse rest with
+  | some (.list [.atom "pair", pc, sc]) =>
+    let (c, _) := pcfgOf pc
+    let n := c.blocks.length
+    let g : Graph.Graph := { n := c.blocks.length, pred := fun i => (c.block i).preds }
+    match Dominators.computeDominators g with
+    | none => "fail dominators"
+    | some D =>
+      let idoms := Dominators.idoms g D
+      let idom : Nat → Nat := fun i => match idoms i with | .some j => j | _ => 0
+      let hyps := (if (List.range n).all (fun i => i == 0 || decide (idom i < i)) then [] else ["idom-not-smaller"]) ++
+        (if (g.pred 0).isEmpty then [] else ["entry-preds"]) ++
+        (if (List.range n).all (fun i => (g.pred i).all (· < n)) then [] else ["preds-range"])
+      let df : Nat → List Nat := fun x => (List.range n).filter (fun j => Dominators.inFrontier g idoms x j)
+      let allW := ((List.range n).flatMap (SsaBuild.written c)).eraseDups
+      match SsaBuild.insertPhis df (SsaBuild.written c) (n + n * allW.length + 2) (List.range n) (fun _ => []) with
+      | none => "fail worklist-fuel"
+      | some Pf =>
+        match sc with
+        | .atom _ =>
+          -- the real conversion failed: the model must fail as well, for every numbering (none is consulted on failure)
+          let V : SsaBuild.Versions := { phi := fun _ _ => 0, def_ := fun _ _ => 0, imp := fun _ _ => 0 }
+          (match SsaBuild.build V c Pf idom with
+           | none => "ok both-fail" ++ (if hyps.isEmpty then "" else " hyps:" ++ ",".intercalate hyps)
+           | some _ => "mismatch model builds an SSA form but the implementation failed")
+        | _ =>
+          let r := ssaCfgOf sc
+          let V : SsaBuild.Versions :=
+            { phi := fun i v => match Ssa.phiFor (r.block i) v with
+                | some _ => (match ((r.block i).stmts.find? (fun s => s.isPhi && (match s.target with | some (w, _) => w == v | none => false))) with
+                             | some s => (match s.target with | some t => t.2 | none => 0) | none => 0)
+                | none => 0,
+              def_ := fun i k => match ((r.block i).stmts.filter (fun s => !s.isPhi))[k]? with
+                | some s => (match s.target with | some t => t.2 | none => 0) | none => 0,
+              imp := fun i k => match ((r.block i).stmts.filter (fun s => !s.isPhi))[k]? with
+                | some s => (match s.implicit with | x :: _ => x.2 | [] => 0) | none => 0 }
+          (match SsaBuild.build V c Pf idom with
+           | none => "mismatch model fails (read of an unversioned local) but the implementation produced an SSA form"
+           | some m =>
+             let bad := (List.range n).filter (fun i => showSsaBlock (m.block i) != showSsaBlock (r.block i))
+             if bad.isEmpty && m.blocks.length == r.blocks.length then
+               s!"ok blocks={n} phis={((List.range n).map (fun i => (Pf i).length)).sum}" ++ (if hyps.isEmpty then "" else " hyps:" ++ ",".intercalate hyps)
+             else
+               let i := bad.headD 0
+               s!"mismatch block {i}: model [{showSsaBlock (m.block i)}] implementation [{showSsaBlock (r.block i)}]")
+  | _ => "bad-op"
 
 /-- `phicomplete <ssa cfg>`: the phi statements that lack an argument for some incoming edge (the
     variable has no version at the end of that predecessor): hypothesis `PhiComplete` of C06 -/
@@ -718,6 +831,7 @@ def pathhypsCmd (rest : String) : String :=
 
 def handle (line : String) : String :=
   if line.startsWith "pathhyps " then pathhypsCmd (line.drop 9).toString else
+  if line.startsWith "ssabuild " then ssabuildCmd (line.drop 9).toString else
   if line.startsWith "desugar " then desugarCmd (line.drop 8).toString else
   if line.startsWith "cfglift " then cfgliftCmd (line.drop 8).toString else
   if line.startsWith "wfcheck " then wfcheckCmd (line.drop 8).toString else
